@@ -27,6 +27,12 @@ class Ctx:
         self.pool = descriptor_pool.DescriptorPool()
         for f in fds.file:
             self.pool.Add(f)
+        # types that generated Any values may pack (so that JSON with @type resolves under this pool)
+        from .. import deps as _deps
+        have = {f.name for f in fds.file}
+        for f in _deps.dep_files(["google/protobuf/empty.proto", "google/protobuf/timestamp.proto", "google/protobuf/duration.proto"]):
+            if f.name not in have:
+                self.pool.Add(f)
         self.naming = refnaming.expected(self.api, self.options)
         sys.path.insert(0, self.out)
 
@@ -84,3 +90,74 @@ class Ctx:
         for f in self.api["files"]:
             for s in f.get("services", []):
                 yield f, s
+
+
+# ---------------------------------------------------------------------------
+# inner Hypothesis layer
+
+class Fail(Exception):
+    def __init__(self, kind, msg, detail=None):
+        super().__init__(f"{kind}: {msg}")
+        self.kind, self.msg, self.detail = kind, msg, detail
+
+
+def forall(ctx, strategy, fn, n, label="", shrink=True):
+    """Run fn(value) for n generated values (seeded by the case's inner seed). A Fail raised by fn is
+    shrunk by Hypothesis and then reported as a violation of the case (first failure only)."""
+    import hypothesis
+    from hypothesis import given, settings, HealthCheck, Phase
+    last = {}
+    seed = int(ctx.inner.get("seed", 0))
+
+    phases = [Phase.generate] + ([Phase.shrink] if shrink else [])
+
+    @hypothesis.seed(seed)
+    @settings(max_examples=n, database=None, deadline=None, report_multiple_bugs=False, phases=phases,
+              suppress_health_check=list(HealthCheck), verbosity=hypothesis.Verbosity.quiet)
+    @given(strategy)
+    def run(v):
+        ctx.count("inner_evaluations")
+        try:
+            fn(v)
+        except Fail as f:
+            last["f"] = f
+            raise
+    try:
+        run()
+    except Fail as f:
+        f = last.get("f", f)
+        ctx.violation(f.kind, (label + ": " if label else "") + f.msg, f.detail)
+    except Stop:
+        raise
+    except BaseException as e:
+        if "f" in last:
+            f = last["f"]
+            ctx.violation(f.kind, (label + ": " if label else "") + f.msg, f.detail)
+        else:
+            raise
+
+
+# ---------------------------------------------------------------------------
+# reference naming of the emitted surface (written from the public convention)
+
+import keyword as _kw
+import re as _re
+
+
+def snake(name):
+    """UpperCamel -> lower_snake (reference; names in the generated domain are plain CamelCase)."""
+    s = _re.sub(r"([a-z0-9])([A-Z])", r"\1_\2", name)
+    s = _re.sub(r"([A-Z]+)([A-Z][a-z])", r"\1_\2", s)
+    return s.lower()
+
+
+def client_method_name(rpc_name):
+    s = snake(rpc_name)
+    return s + "_" if _kw.iskeyword(s) else s
+
+
+def module_of_file(ctx, file):
+    """python package in which the emitted classes of a proto file live (sub-packages honoured)."""
+    root = ctx.naming["root_package"]
+    sub = file["package"][len(root):].strip(".")
+    return ctx.naming["versioned_import"] + ("." + sub if sub else "")
